@@ -21,7 +21,7 @@ static void run(size_t size, size_t k) {
 	vf_grid_tab[vf_grid_n++] = (struct vf_grid_in){ "buf", 0, in_buf, VF_N };
 	vf_grid_tab[vf_grid_n++] = (struct vf_grid_in){ "size", size, 0, 0 };
 	vf_grid_tab[vf_grid_n++] = (struct vf_grid_in){ "k", k, 0, 0 };
-	if(k == 0) VF_GRID_RUN(h_SEQUENCE_decode_ber);
+	if(k == 0) { VF_GRID_RUN(h_SEQUENCE_decode_ber); VF_GRID_RUN(h_SEQUENCE_decode_ber_reset); }
 	VF_GRID_RUN(h_SEQUENCE_decode_ber_chunked);
 }
 static void all_cuts(void) { for(size_t size = 0; size <= in_len; size++) for(size_t k = 0; k <= size; k++) run(size, k); }
